@@ -65,16 +65,22 @@ Lookup(t) ==
           ELSE kern' = kern /\ Step(t, "compile")
   /\ UNCHANGED <<cache, lock, kkey, nk, wkd, struct, ns, out, result>>
 
+\* In the design model the cffi critical section sits between compile and jit (where the code has it).  WHERE a tree
+\* compiles is not part of the property (a tree may compile lazily on the first call): in tracing mode the critical
+\* section may therefore be entered and left anywhere between the lookup and the return, any number of times; only
+\* its mutual exclusion is demanded (FFI.compile is not thread safe).
 Compile(t) ==
   /\ pc[t] = "compile" /\ Ev("compile", t)
-  /\ Step(t, IF BackendOf[ReqOf[t]] = "cffi" THEN "lock" ELSE "jit")
+  /\ Step(t, IF BackendOf[ReqOf[t]] = "cffi" /\ ~Tracing THEN "lock" ELSE "jit")
   /\ UNCHANGED <<cache, lock, kern, kkey, nk, wkd, struct, ns, out, result>>
 
-Lock(t) == /\ pc[t] = "lock" /\ lock = 0 /\ Ev("lock", t)
-           /\ lock' = t /\ Step(t, "unlock")
+Lock(t) == /\ IF Tracing THEN pc[t] \notin {"lookup", "done"} ELSE pc[t] = "lock"
+           /\ lock = 0 /\ Ev("lock", t)
+           /\ lock' = t /\ (IF Tracing THEN pc' = pc /\ sched' = sched ELSE Step(t, "unlock"))
            /\ UNCHANGED <<cache, kern, kkey, nk, wkd, struct, ns, out, result>>
-Unlock(t) == /\ pc[t] = "unlock" /\ lock = t /\ Ev("unlock", t)
-             /\ lock' = 0 /\ Step(t, "jit")
+Unlock(t) == /\ IF Tracing THEN TRUE ELSE pc[t] = "unlock"
+             /\ lock = t /\ Ev("unlock", t)
+             /\ lock' = 0 /\ (IF Tracing THEN pc' = pc /\ sched' = sched ELSE Step(t, "jit"))
              /\ UNCHANGED <<cache, kern, kkey, nk, wkd, struct, ns, out, result>>
 
 Jit(t) == /\ pc[t] = "jit" /\ Ev("jit", t)
@@ -132,7 +138,7 @@ Spec == Init /\ [][Next]_vars
 --------------------------------------------------------------------------
 KernelMatches == \A t \in Threads : pc[t] \in {"exit", "own", "ret", "done"} => kern[t].key = Key(t)
 OwnMatches == \A t \in Threads : pc[t] = "own" => struct[t] \in wkd
-LockMutex == Cardinality({t \in Threads : pc[t] = "unlock"}) <= 1 /\ (lock # 0 => pc[lock] = "unlock")
+LockMutex == Tracing \/ (Cardinality({t \in Threads : pc[t] = "unlock"}) <= 1 /\ (lock # 0 => pc[lock] = "unlock"))
 CacheBound == Cardinality(DOMAIN cache) <= MaxSize
 CacheSound == \A k \in DOMAIN cache : cache[k].key = k
 Sequential == \A t \in Threads : pc[t] = "done" => result[t] = Alone(t)
